@@ -6,9 +6,11 @@ import (
 	"math/bits"
 	"reflect"
 	"strings"
+	"time"
 
 	sdk "github.com/cosmos/cosmos-sdk/types"
 	"github.com/cosmos/cosmos-sdk/x/authz"
+	"github.com/cosmos/cosmos-sdk/x/group"
 	"github.com/gogo/protobuf/proto"
 	"pgregory.net/rapid"
 
@@ -22,6 +24,9 @@ type G struct {
 	W *world.World
 	// Bias is a per-property knob table (percentages).
 	Bias map[string]int
+	// groupProposer is set by signersFor when the messages must travel as a group proposal
+	// (1 + index of the proposing account), and consumed by the TxStep builder.
+	groupProposer int
 	// W0Accts is the account pool (available before the world exists, for genesis generation)
 	W0Accts []simnet.Account
 	// proofs made while generating the current tx
@@ -94,7 +99,14 @@ func (g *G) weighted(label string, kv ...interface{}) string {
 	return kv[0].(string)
 }
 
-func (g *G) acct(label string) int { return g.intn(label, world.NumAccounts) }
+func (g *G) acct(label string) int {
+	// once the harness's group exists its policy account (a 32-byte address nobody holds a
+	// key for) is an actor like any other; it acts through group proposals of its member
+	if g.W != nil && g.W.Group.Policy != "" && len(g.W.Accts) > world.NumAccounts && g.chance(label+"-group-policy", g.bias("group-actor", 12)) {
+		return world.NumAccounts
+	}
+	return g.intn(label, world.NumAccounts)
+}
 
 func (g *G) bech(i int) string { return g.W.Accts[i].Bech }
 
@@ -131,10 +143,28 @@ func (g *G) signMode(label string, mayAux bool) string {
 func (g *G) signersFor(msgs []sdk.Msg, exec int, right int, aminoOK bool) ([]simnet.SignerSpec, string) {
 	var req []int
 	ok := true
+	g.groupProposer = 0
 	if exec > 0 {
 		req = []int{exec - 1}
 	} else {
 		req, ok = g.W.SignerIndexes(msgs)
+	}
+	if ok && exec == 0 {
+		for _, i := range req {
+			if i >= world.NumAccounts {
+				// the group policy account has to stand behind a message: the messages travel as a
+				// group proposal (exec = try) whose proposer signs
+				req = []int{g.W.Group.Member}
+				g.groupProposer = g.W.Group.Member + 1
+				aminoOK = false
+				if !g.chance("right-proposer", 85) {
+					// somebody who is not the group's member proposes
+					o := (g.W.Group.Member + 1 + g.intn("other-proposer", world.NumAccounts-1)) % world.NumAccounts
+					req, g.groupProposer = []int{o}, o+1
+				}
+				break
+			}
+		}
 	}
 	mode := func(i int) string {
 		m := g.signMode(fmt.Sprintf("mode%d", i), i > 0)
@@ -229,7 +259,11 @@ func (g *G) wrapTx(msgs []sdk.Msg, note string, aminoOK bool) *world.TxStep {
 		}
 	}
 	signers, how := g.signersFor(msgs, exec, g.bias("right-signers", 80), aminoOK && exec == 0)
-	ts := &world.TxStep{Signers: signers, Fee: g.fee("fee"), Exec: exec, Note: note + " signers=" + how, Proofs: g.proofs}
+	ts := &world.TxStep{Signers: signers, Fee: g.fee("fee"), Exec: exec, Group: g.groupProposer, Note: note + " signers=" + how, Proofs: g.proofs}
+	if ts.Group > 0 {
+		ts.Note += " via-group-proposal"
+	}
+	g.groupProposer = 0
 	g.proofs = nil
 	if g.chance("low-gas", g.bias("low-gas", 7)) {
 		// a gas limit that runs out in the ante handler or in the middle of a message handler
@@ -247,7 +281,7 @@ func (g *G) wrapTx(msgs []sdk.Msg, note string, aminoOK bool) *world.TxStep {
 			ts.Msgs = append([]world.MsgJSON{}, ts.SignedMsgs...)
 			ts.Msgs[i] = world.EncodeMsg(t2)
 			ts.Note += " tampered-after-signing(" + what + ")"
-			if aminoOK && exec == 0 && g.chance("tamper-amino", 60) {
+			if aminoOK && exec == 0 && ts.Group == 0 && g.chance("tamper-amino", 60) {
 				for k := range ts.Signers {
 					ts.Signers[k].Mode = simnet.ModeAmino
 				}
@@ -424,4 +458,17 @@ func (g *G) genPerturb(gen func() (sdk.Msg, string), amino bool) *world.Step {
 		kind = "checktx"
 	}
 	return &world.Step{Kind: kind, Tx: ts}
+}
+
+// genGroupSetup creates the harness's group: one member (weight 1), a threshold-1 policy with
+// no minimum execution period, so that a proposal of the member executes in the same tx.
+func (g *G) genGroupSetup() *world.TxStep {
+	admin := g.intn("group-admin", world.NumAccounts)
+	a := g.W.Accts[admin].Bech
+	msg, err := group.NewMsgCreateGroupWithPolicy(a, []group.MemberRequest{{Address: a, Weight: "1"}}, "", "", true,
+		group.NewThresholdDecisionPolicy("1", time.Hour, 0))
+	if err != nil {
+		panic(err)
+	}
+	return &world.TxStep{Msgs: []world.MsgJSON{world.EncodeMsg(msg)}, Signers: []simnet.SignerSpec{{Acct: admin}}, Fee: g.fee("fee"), Note: "create-group-with-policy"}
 }
